@@ -307,6 +307,31 @@ pub struct C04Params {
     pub dev_max_len: usize,
 }
 
+/// The same read schedule without the fault. Choice-point schedules are turned into explicit
+/// scripts (the menus of the faulted run end at the fault and would not match otherwise).
+fn same_reads_without_fault(spec: &Spec) -> Spec {
+    let mut s = spec.clone().fault(None);
+    if let Grain::Choose(_) = s.grain {
+        let script = s
+            .forced
+            .iter()
+            .map(|&(c, n)| {
+                if c == 0 {
+                    crate::source::Ans::Deliver(usize::MAX)
+                } else if s.interrupts > 0 && c == n - 1 {
+                    crate::source::Ans::Interrupt
+                } else {
+                    crate::source::Ans::Deliver(c as usize)
+                }
+            })
+            .collect();
+        s.grain = Grain::Script(script);
+        s.forced = vec![];
+        s.interrupts = 0;
+    }
+    s
+}
+
 fn c04_judge(reference: &Execution, ex: &Execution) -> Option<(&'static str, String)> {
     let triggered = ex.src.borrow().err_returned > 0;
     // (iii) items handed out before the end equal the fault-free items at the same index
@@ -361,11 +386,16 @@ pub fn c04(subjects: &[Box<dyn Subject>], docs: &[Doc], params: &C04Params, budg
                         rep.nontrivial += 1;
                     }
                     rep.outcome(format!("{}:{}:{}", family_of(subject), ex.end.kind(), ex.src.borrow().err_returned > 0));
-                    if let Some((kind, what)) = c04_judge(&reference, ex) {
-                        let key = format!("{}/failing-source/{}", family_of(subject), kind);
-                        rep.violation_with(&key, (input.len() * 1000 + k) as u64, || {
-                            (format!("{} on {:?} [{}]: {what} (fault-free run: {})", subject.name(), show(input), spec.describe(), obs(&reference)), replay_json("C04", subject, input, spec))
-                        });
+                    if c04_judge(&reference, ex).is_some() {
+                        // judged against the fault-free run under the SAME read schedule, so that
+                        // only the effect of the fault is judged (schedule dependence is C01's)
+                        let same = run_spec(subject, input, &same_reads_without_fault(spec));
+                        if let Some((kind, what)) = c04_judge(&same, ex) {
+                            let key = format!("{}/failing-source/{}", family_of(subject), kind);
+                            rep.violation_with(&key, (input.len() * 1000 + k) as u64, || {
+                                (format!("{} on {:?} [{}]: {what} (fault-free run with the same reads: {})", subject.name(), show(input), spec.describe(), obs(&same)), replay_json("C04", subject, input, spec))
+                            });
+                        }
                     }
                 };
                 let mut specs = vec![Spec::oneshot().fault(Some(k))];
@@ -398,11 +428,11 @@ pub fn c04(subjects: &[Box<dyn Subject>], docs: &[Doc], params: &C04Params, budg
 pub fn c04_replay(subject: &dyn Subject, v: &Value) -> (bool, String) {
     let input = unhex(v["input_hex"].as_str().unwrap());
     let spec = Spec::from_json(&v["spec"]);
-    let reference = run_spec(subject, &input, &Spec::oneshot());
+    let reference = run_spec(subject, &input, &same_reads_without_fault(&spec));
     let ex = run_spec(subject, &input, &spec);
     let verdict = c04_judge(&reference, &ex);
     let text = format!(
-        "{} on {:?}\n  fault-free: {:?} then {}\n  [{}]: {:?} then {}\n  {}\n",
+        "{} on {:?}\n  fault-free (same reads): {:?} then {}\n  [{}]: {:?} then {}\n  {}\n",
         subject.name(), show(&input), reference.items, reference.end.short(), spec.describe(), ex.items, ex.end.short(),
         verdict.as_ref().map_or("ok".to_string(), |(k, w)| format!("{k}: {w}"))
     );
